@@ -155,19 +155,37 @@ func Sum(s string) int {
 	return h
 }
 
-// Routes registers the instrumented handlers on a peer: CALL /t/call and
-// PUSH /t/push (HTTP mapper names).
-func (a *App) Routes(p erpc.Peer) {
-	g := p.SubRoute("t")
-	g.RouteCallFunc(a.callFn())
-	g.RoutePushFunc(a.pushFn())
-}
+// CurApp is the application kit used by the controller structs below
+// (controllers are instantiated by the framework through reflection).
+var CurApp *App
 
-func (a *App) callFn() interface{} {
-	return func(ctx erpc.CallCtx, arg *Arg) (*Res, *erpc.Status) { return a.CallHandler(ctx, arg) }
-}
-func (a *App) pushFn() interface{} {
-	return func(ctx erpc.PushCtx, arg *Arg) *erpc.Status { return a.PushHandler(ctx, arg) }
+// T is the CALL controller: route /t/call.
+type T struct{ erpc.CallCtx }
+
+// Call is the instrumented CALL handler.
+func (t *T) Call(arg *Arg) (*Res, *erpc.Status) { return CurApp.CallHandler(t.CallCtx, arg) }
+
+// U is the PUSH controller: route /u/push.
+type U struct{ erpc.PushCtx }
+
+// Push is the instrumented PUSH handler.
+func (u *U) Push(arg *Arg) *erpc.Status { return CurApp.PushHandler(u.PushCtx, arg) }
+
+// CallRoute and PushRoute are the service methods of the instrumented handlers.
+const (
+	CallRoute = "/t/call"
+	PushRoute = "/u/push"
+)
+
+// Routes registers the instrumented handlers on a peer and makes a the
+// current application kit.
+func (a *App) Routes(p erpc.Peer, plugins ...erpc.Plugin) {
+	CurApp = a
+	n1 := p.RouteCall(new(T), plugins...)
+	n2 := p.RoutePush(new(U), plugins...)
+	if len(n1) != 1 || n1[0] != CallRoute || len(n2) != 1 || n2[0] != PushRoute {
+		panic(fmt.Sprintf("unexpected route names %v %v", n1, n2))
+	}
 }
 
 // AppPoint lets harness code take part in the hold-point protocol.
@@ -175,14 +193,14 @@ func (g *Gates) AppPoint(pt, sessName string, a int64) {
 	g.mu.Lock()
 	g.hits[pt]++
 	rec := g.record
-	keys := [2]string{fmt.Sprintf("%s#%d", pt, a), fmt.Sprintf("%s:%s#%d", sessName, pt, a)}
+	keys := [4]string{pt, fmt.Sprintf("%s#%d", pt, a), sessName + ":" + pt, fmt.Sprintf("%s:%s#%d", sessName, pt, a)}
 	var ch chan struct{}
 	var key string
 	for _, k := range keys {
 		if g.held[k] {
-			key = k
+			key = keys[3]
 			ch = make(chan struct{})
-			g.waiting[k] = append(g.waiting[k], ch)
+			g.waiting = append(g.waiting, &waiter{keys: keys, ch: ch, a: a})
 			g.cond.Broadcast()
 			break
 		}
